@@ -88,6 +88,12 @@ func c08Univ() *c08Universe {
 		// candidates in a parent lookup by name / key id, and must never come back as verified parents
 		add("inter1-impostor-not-a-ca", kit.MakeCert(kit.CertSpec{Name: "Pool Inter 1", Key: "p256_4", Issuer: root, Serial: 12, SKI: ski}))
 		add("root-impostor-not-a-ca", kit.MakeCert(kit.CertSpec{Name: "Pool Root", Key: "p256_3", Serial: 13, SKI: []byte{9, 9, 9, 1}}))
+		// CA key rollover ("new with old", RFC 4210 4.4): subject = issuer = "Pool Root", a new key, signed with the
+		// old root's key: self-issued but not self-signed. Its only verified parents are the certificates of the old key.
+		rollover := kit.MakeCert(kit.CertSpec{Name: "Pool Root", Key: "p256_2", IsCA: true, MaxPathLen: -1, Issuer: root, Serial: 14, SKI: []byte{9, 9, 9, 3}})
+		add("root-rollover-new-with-old", rollover)
+		lroll := kit.MakeCert(kit.CertSpec{Name: "leaf5.pool.test", Key: "p256_1", Issuer: rollover, Serial: 15, DNSNames: []string{"leaf5.pool.test"}})
+		u.leafs = append(u.leafs, add("leaf-under-rollover", lroll))
 		c08U = u
 	})
 	return c08U
@@ -100,20 +106,26 @@ func genC08(seed uint64, tier string) any {
 	n := r.Range(2, 40)
 	nc := len(u.certs)
 	for i := 0; i < n; i++ {
-		switch r.Pick([]int{5, 4, 2, 2}) {
+		switch r.Pick([]int{5, 4, 2, 2, 2}) {
+		case 4:
+			sc.Ops = append(sc.Ops, c08Op{Op: "parents", Pool: r.Intn(3), Cert: r.Intn(nc)})
 		case 0:
 			sc.Ops = append(sc.Ops, c08Op{Op: "add", Pool: r.Intn(3), Cert: r.Intn(nc)})
 		case 1:
 			op := c08Op{Op: "pem", Pool: r.Intn(3)}
 			for k := r.Range(0, 5); k > 0; k-- {
-				kind := []string{"cert", "cert", "cert", "truncated", "notseq", "othertype", "garbage"}[r.Intn(7)]
+				kind := []string{"cert", "cert", "cert", "truncated", "notseq", "othertype", "garbage", "badnc"}[r.Intn(8)]
 				op.Blocks = append(op.Blocks, c08Block{Kind: kind, Cert: r.Intn(nc)})
 			}
 			sc.Ops = append(sc.Ops, op)
 		case 2:
 			sc.Ops = append(sc.Ops, c08Op{Op: "sum", Pool: r.Intn(3), A: r.Range(-1, 2), B: r.Range(-1, 2)})
 		default:
-			sc.Ops = append(sc.Ops, c08Op{Op: "verify", Cert: u.leafs[r.Intn(len(u.leafs))], A: r.Intn(3), B: r.Range(-1, 2)})
+			target := u.leafs[r.Intn(len(u.leafs))]
+			if r.Chance(1, 4) {
+				target = r.Intn(nc) // any certificate may be what is being verified, CA certificates included
+			}
+			sc.Ops = append(sc.Ops, c08Op{Op: "verify", Cert: target, A: r.Intn(3), B: r.Range(-1, 2)})
 		}
 	}
 	return sc
@@ -137,10 +149,35 @@ func c08PEM(u *c08Universe, blocks []c08Block) (blob []byte, valid []int) {
 			pem.Encode(&b, &pem.Block{Type: "X509 CRL", Bytes: der})
 		case "garbage":
 			pem.Encode(&b, &pem.Block{Type: "CERTIFICATE", Bytes: []byte{0x30, 0x03, 0x02, 0x01, 0x05}})
+		case "badnc":
+			pem.Encode(&b, &pem.Block{Type: "CERTIFICATE", Bytes: c08BadNC(der)})
 		}
 		b.WriteString("stray text between blocks\n")
 	}
 	return b.Bytes(), valid
+}
+
+// c08BadNC returns the certificate with one more extension: critical nameConstraints whose only permitted subtree
+// is an iPAddress of 4 octets (RFC 5280 4.2.1.10 requires address and mask, 8 or 32 octets). Well-formed DER that
+// is not a valid certificate; should the parser under test accept it after all, a block that certainly does not
+// parse takes its place (the pool property is about blocks that fail to parse).
+func c08BadNC(der []byte) []byte {
+	garbage := []byte{0x30, 0x03, 0x02, 0x01, 0x05}
+	root, _, err := parseDER(der, 0, "", nil)
+	if err != nil || len(root.Children) == 0 {
+		return garbage
+	}
+	for _, c := range root.Children[0].Children {
+		if c.Tag[0] == 0xa3 && len(c.Children) == 1 {
+			c.Children[0].Content = []byte{0x30, 0x16, 0x06, 0x03, 0x55, 0x1d, 0x1e, 0x01, 0x01, 0xff, 0x04, 0x0c,
+				0x30, 0x0a, 0xa0, 0x08, 0x30, 0x06, 0x87, 0x04, 0x0a, 0x00, 0x00, 0x00}
+			out := root.encode()
+			if _, err := zx509.ParseCertificate(out); err != nil {
+				return out
+			}
+		}
+	}
+	return garbage
 }
 
 type c08Model struct{ order []int } // certificate indices in first-insertion order (distinct by fingerprint = by index)
@@ -275,6 +312,21 @@ func execC08(t *testing.T, scAny any, keepLog bool) *Outcome {
 				pools[op.Pool], models[op.Pool] = res, nm
 			}
 			o.count("probe.sum", 1)
+		case "parents":
+			// the parent lookup itself (what chain building is given), for any certificate of the universe
+			child := fresh(op.Cert)
+			for _, parent := range zx509.VerifFindVerifiedParents(pools[op.Pool], child) {
+				o.count("probe.parents_returned", 1)
+				if !c08InModel(u, models[op.Pool], parent) {
+					return failOut(o, h, sc, Failf("c08.parent", "parent lookup returned a certificate that is not a member of the pool", "step %d child %s: parent %s", step, u.names[op.Cert], c08Name(u, parent)))
+				}
+				ps, err1 := stdParse(parent.Raw)
+				cs, err2 := stdParse(child.Raw)
+				if err1 != nil || err2 != nil || ps.CheckSignature(cs.SignatureAlgorithm, cs.RawTBSCertificate, cs.Signature) != nil {
+					return failOut(o, h, sc, Failf("c08.parent", "parent lookup returned a pool member whose key does not verify the child's signature", "step %d pool %d: %s as a parent of %s", step, op.Pool, c08Name(u, parent), u.names[op.Cert]))
+				}
+			}
+			o.count("probe.parent_lookups", 1)
 		case "verify":
 			roots := pools[op.A]
 			var inter *zx509.CertPool
@@ -319,6 +371,15 @@ func execC08(t *testing.T, scAny any, keepLog bool) *Outcome {
 		}
 	}
 	return failOut(o, h, sc, o.Fail)
+}
+
+func c08InModel(u *c08Universe, m *c08Model, c *zx509.Certificate) bool {
+	for _, idx := range m.order {
+		if u.fp[idx] == string(c.FingerprintSHA256) {
+			return true
+		}
+	}
+	return false
 }
 
 func failOut(o *Outcome, h *kit.Hash64, sc *c08Scenario, f *Failure) *Outcome {
